@@ -43,9 +43,9 @@ ASSUMPTIONS = [
 MANIFEST_TEXT = (
     "proof (partial). Full theorems (unbounded in mode count, mode lists, cutoff, tensors; scalars any field): "
     "C16_gauss_subset_order, C16_gauss_unsorted_rejected, C16_gauss_displacement_order, C16_gauss_photon, C16_gauss_quad_photon, "
-    "C16_fock_prob_all_probs, C16_fock_trace, C16_gauss_parity_subset, C16_gauss_parity_order (model of parity_expectation after "
+    "C16_fock_prob_all_probs, C16_fock_trace, C16_fock_marginals, C16_fock_mean_photon_marginal, C16_fock_reduced_labels_single, C16_gauss_parity_subset, C16_gauss_parity_order (model of parity_expectation after "
     "fix 5603fbf). Stated but not proved in Coq "
-    "(C16_fock_reduced_labels_statement, C16_fock_marginals_statement, C16_fock_parity_statement): validated each run by exact "
+    "(C16_fock_reduced_labels_statement for >= 2 kept modes, C16_fock_parity_statement): validated each run by exact "
     "integer-tensor correspondence and captured einsum subscripts. Wigner functions, thewalrus Fock conversions, bosonic "
     "observables, fidelities: cross-method / cross-representation search only.")
 
@@ -719,10 +719,10 @@ def gen_gauss_spec(rng, n, lossy):
         if rng.random() < 0.85:
             cmds.append(["Dgate", [round(rng.uniform(0.05, 0.35), 3), round(rng.uniform(-3, 3), 2)], [i], False])
     if n >= 2:
-        # two-mode gates on ascending pairs only: the Fock backend's handling of descending target pairs is C01's subject
-        pairs = [sorted(rng.sample(range(n), 2)) for _ in range(rng.randint(1, n))]
+        # two-mode gates on pairs in either order (descending targets included)
+        pairs = [rng.sample(range(n), 2) for _ in range(rng.randint(1, n))]
         if rng.random() < 0.4:
-            a, b = sorted(rng.sample(range(n), 2))
+            a, b = rng.sample(range(n), 2)
             cmds.append(["S2gate", [round(rng.uniform(0.1, 0.22), 3), round(rng.uniform(-3, 3), 2)], [a, b], False])
         for a, b in pairs:
             cmds.append(["BSgate", [round(rng.uniform(0.3, 1.3), 3), round(rng.uniform(-2, 2), 2)], [a, b], False])
@@ -839,9 +839,9 @@ def ref_from_gauss(mu, cov, n, q, cutoff):
         return (hb / 2) ** len(q["modes"]) * _G(rm, rc)
     if m == "number_expectation":
         rm, rc = red(q["modes"])
-        pr = twq.probabilities(rm, rc, 22, hbar=hb)
+        pr = twq.probabilities(rm, rc, 16, hbar=hb)
         k = len(q["modes"])
-        grids = np.meshgrid(*[np.arange(22)] * k, indexing="ij")
+        grids = np.meshgrid(*[np.arange(16)] * k, indexing="ij")
         prod = np.prod(grids, axis=0)
         mean = float(np.sum(prod * pr))
         return [mean, float(np.sum(prod ** 2 * pr)) - mean ** 2]
@@ -1234,7 +1234,7 @@ def gen_fock_spec(rng, n):
         total = 1
     for _ in range(rng.randint(1, 3)):
         if n >= 2:
-            a, b = sorted(rng.sample(range(n), 2))
+            a, b = rng.sample(range(n), 2)
             cmds.append(["BSgate", [round(rng.uniform(0.3, 1.3), 3), round(rng.uniform(-2, 2), 2)], [a, b], False])
         i = rng.randrange(n)
         cmds.append([rng.choice(["Rgate", "Kgate"]), [round(rng.uniform(-2, 2), 2)], [i], False])
